@@ -12,3 +12,4 @@ import CheetahModel.Properties.C05
 #print axioms C05.forward_is_derivative
 #print axioms C05.reverse_is_gradient
 #print axioms C05.reverse_gradient_at_guard
+#print axioms C05.focusing_reverse_gradient
